@@ -40,6 +40,8 @@ func runC10(c *core.Ctx) {
 	ruleRetryLoop(c, "C10.write-whole", "WriteN", "Write")
 	c.Doc("C17.table", "a handler is registered in a free slot found and filled in one critical section (rule shared with C17)", 2)
 	ruleSlotFill(c, a, lc, "C17.table")
+	c.Doc("C10.consumer-serial", "AddHandler's queue is drained by one goroutine calling the consumer one message at a time (arrival order)", 2)
+	ruleSerialDrain(c, "C10.consumer-serial", a.addHandler)
 	c.Doc("C10.order", "process dispatches synchronously between two reads", 2)
 	ruleProcessOrder(c, a)
 	c.Doc("C10.enqueue", "enqueue is non-blocking, under handlersMutex, only after the handler's own filter matched; every handler is offered every message", 2)
@@ -306,6 +308,30 @@ func ruleStreamOwner(c *core.Ctx, a *epAnchors) {
 	// ChangeInterface results are followed by allUses only through listed wrappers; do it explicitly
 	if n == 0 {
 		c.Undecided(rule, "stream-use", a.send.Pos(), "no use of endPoint.stream found")
+	}
+	// Write methods of the stream implementations hand on the whole buffer they are given
+	for _, fn := range srcFuncsOfPkg(c, "bus/net") {
+		if fn.Parent() != nil || fn.Name() != "Write" || fn.Signature.Recv() == nil || len(fn.Params) != 2 {
+			continue
+		}
+		if sl, ok := fn.Params[1].Type().Underlying().(*types.Slice); !ok || !types.Identical(sl.Elem(), types.Typ[types.Byte]) {
+			continue
+		}
+		for i, call := range core.Calls(fn) {
+			cc := call.Common()
+			var arg ssa.Value
+			switch {
+			case cc.IsInvoke() && cc.Method.Name() == "Write" && len(cc.Args) == 1:
+				arg = cc.Args[0]
+			case cc.StaticCallee() != nil && cc.StaticCallee().Name() == "Write" && len(cc.Args) == 2:
+				arg = cc.Args[1]
+			default:
+				continue
+			}
+			pr, ok := core.Canon(arg).(*ssa.Parameter)
+			c.Check(ok && pr.Parent() == fn, rule, fmt.Sprintf("whole-write@%s#%d", core.FuncKey(fn), i), call.Pos(), "the buffer is handed on whole",
+				"the stream's Write does not hand the whole buffer it was given to the underlying writer (it writes a part and lets the caller retry): one message becomes several writes, and concurrent senders' chunks interleave")
+		}
 	}
 	// raw Read/Write invocations
 	for _, fn := range c.RepoFuncs("bus", "type", "meta/signature") {
